@@ -254,7 +254,7 @@ def readStringBody : Nat → List UInt8 → Nat → Bool → SM (List UInt8)
   | 0, _, _, _ => fail (.other "scanner-fuel")
   | fuel + 1, res, level, ignoreLF => do
     let b ← next
-    if ignoreLF && b == 10 then readStringBody fuel res level true
+    if ignoreLF && b == 10 then readStringBody fuel res level false
     else if b == 40 then readStringBody fuel (res ++ [b]) (level + 1) false
     else if b == 41 then
       if level == 1 then pure res else readStringBody fuel (res ++ [b]) (level - 1) false
